@@ -67,8 +67,8 @@ func callOfPath(p *pgen.Program, callPath string) *pgen.Call {
 }
 
 type VdrStats struct {
-	ResetAttemptFiles int // files of job attempts that mrp reset (restart / retry)
-	InterruptedRemovals int // removals by an interrupted mrp whose report was never written
+	ResetAttemptFiles                                              int // files of job attempts that mrp reset (restart / retry)
+	InterruptedRemovals                                            int // removals by an interrupted mrp whose report was never written
 	Removals, Reports, WrittenChecked, TmpDirsChecked, ListedPaths int
 }
 
